@@ -187,14 +187,39 @@ class C09(Property):
         """every atom in exactly one slice, boundary atoms in the upper slice, thicknesses sum to the height"""
         import abtem
 
+        from abtem.slicing import SlicedAtoms
+
         H, zs, st = case["H"], case["zs"], case["st"]
-        pot = abtem.Potential(mk_atoms(zs, H), gpts=8, slice_thickness=tuple(st) if isinstance(st, list) else st,
-                              projection=case.get("projection", "infinite"))
-        ts = pot.slice_thickness
+        try:
+            pot = abtem.Potential(mk_atoms(zs, H), gpts=8, slice_thickness=tuple(st) if isinstance(st, list) else st,
+                                  projection=case.get("projection", "infinite"))
+            ts = pot.slice_thickness
+            sa0 = pot.get_sliced_atoms()
+        except Exception as e:  # noqa
+            ctx.violation("slicing-a-valid-thickness-raises", case, {"raised": f"{type(e).__name__}: {e}"})
+            return
+        # finite-projection membership with zero padding: every centre inside the cell lies in exactly one slice interval,
+        # a centre on a boundary in the upper one
+        inside = [k for k, z in enumerate(zs) if 0 <= z < H]
+        if inside:
+            sl = SlicedAtoms(mk_atoms(zs, H), tuple(ts), z_padding=0.0)
+            mem = [idx_of(sl.get_atoms_in_slices(i)) for i in range(len(ts))]
+            cnt = {k: sum(m.count(k) for m in mem) for k in inside}
+            cum0 = np.cumsum(ts)
+            bad = {k: c for k, c in cnt.items() if c != 1 and abs(zs[k] - H) > 1e-9 and all(abs(zs[k] - c0) > 1e-13 or zs[k] == c0 for c0 in cum0)}
+            ctx.evaluations += 1
+            if bad:
+                ctx.violation("centre-not-in-exactly-one-slice-interval", case, {"slices_per_atom": bad, "z": {k: zs[k] for k in bad}})
+                return
+            for k in inside:
+                for j, c0 in enumerate(cum0[:-1]):
+                    if zs[k] == c0 and (k in mem[j] or k not in mem[j + 1]):
+                        ctx.violation("boundary-centre-not-in-upper-slice-interval", case, {"atom": k, "z": zs[k]})
+                        return
         if abs(sum(ts) - H) > 1e-9 * max(1.0, H):
             ctx.violation("thickness-sum-ne-height", case, {"sum": float(sum(ts)), "H": H})
             return
-        sa = pot.get_sliced_atoms()
+        sa = sa0
         members = [idx_of(sa.get_atoms_in_slices(i)) for i in range(len(ts))]
         count = {k: sum(m.count(k) for m in members) for k in range(len(zs))}
         ctx.evaluations += 1
@@ -246,8 +271,8 @@ class C09(Property):
         rng = ctx.rng
         for i in range(ctx.n(120, 2000)):
             H = float(rng.choice([2, 3, 4, 5, 8]))
-            st = rng.choice([gen_ts(rng, H), gen_ts(rng, H), rng.choice([0.5, 1.0, 0.7, 1.5, H])])
-            ts = st if isinstance(st, list) else [H / np.ceil(H / st)] * int(np.ceil(H / st))
+            st = rng.choice([gen_ts(rng, H), gen_ts(rng, H), rng.choice([0.5, 1.0, 0.7, 1.5, H, 1.5 * H, 0.75 * H])])
+            ts = st if isinstance(st, list) else [H / max(1.0, np.ceil(H / st))] * int(max(1.0, np.ceil(H / st)))
             zs = gen_zs(rng, ts, H)
             # adversarial floats around the wrap / snap / nudge windows
             zs += [rng.choice([H - 1e-13, -1e-15, H, 0.0, H - 5e-11, -1e-11, H + 1e-13, rng.uniform(0, H)]) for _ in range(rng.randint(0, 3))]
